@@ -384,6 +384,9 @@ inline Verdict check_steps(LoopProblem const& P, std::vector<StepRec> const& rec
             if (s.step_count != k + 1)
                 return Verdict{"steps:count-not-consecutive",
                                where() + fmt(": %zu-th record has step count %u", k + 1, s.step_count)};
+            if (k + 1 < st.size() && s.post.volume < 0)
+                return Verdict{"steps:stepped-after-leaving-the-world",
+                               where() + ": ends outside the world but the track delivered another step"};
             if (k + 1 < st.size())
             {
                 StepRec const& n = *st[k + 1];
